@@ -8,6 +8,7 @@ import (
 	"errors"
 	"fmt"
 	"math/big"
+	"net/http"
 	"sort"
 	"strings"
 	"time"
@@ -61,6 +62,10 @@ type World struct {
 	// another property is counted (class "other:<id>") and left to that property's check.
 	Focus   map[string]bool
 	inCheck bool
+	// ViaHTTP: the ledgers' controllers send their writes and reads through the real HTTP API (see httpctrl.go)
+	ViaHTTP  bool
+	router   http.Handler
+	APICalls int
 	// PreOpen: the first PreOpen concurrent writers of runWriters use a controller chain opened before the run
 	PreOpen int
 }
@@ -129,7 +134,7 @@ func (w *World) AddLedger(name, bucket string, fs features.FeatureSet) *LState {
 	if err != nil {
 		w.harness("%v", err)
 	}
-	l := &LState{Name: name, Bucket: bucket, Features: fs, C: c, M: refmodel.New(name), Refs: map[string]bool{}, IKs: map[string]string{}}
+	l := &LState{Name: name, Bucket: bucket, Features: fs, C: w.wrap(name, c), M: refmodel.New(name), Refs: map[string]bool{}, IKs: map[string]string{}}
 	w.L = append(w.L, l)
 	return l
 }
@@ -140,7 +145,18 @@ func (w *World) Reopen(l *LState) {
 	if err != nil {
 		w.harness("%v", err)
 	}
-	l.C = c
+	l.C = w.wrap(l.Name, c)
+}
+
+// wrap routes the controller through the HTTP API when the world says so.
+func (w *World) wrap(name string, c ledgercontroller.Controller) ledgercontroller.Controller {
+	if !w.ViaHTTP {
+		return c
+	}
+	if w.router == nil {
+		w.router = w.Env.Router()
+	}
+	return &httpCtrl{Controller: c, router: w.router, name: name, calls: &w.APICalls}
 }
 
 func (w *World) harness(format string, args ...any) {
@@ -418,7 +434,7 @@ type TxOutcome struct {
 func (w *World) CreateTx(l *LState, r TxRequest) TxOutcome {
 	desc := "create " + r.describe()
 	before := w.Env.Sim.CommitSeq()
-	log, res, hit, err := l.C.CreateTransaction(w.Ctx, r.params())
+	log, res, hit, err := l.C.CreateTransaction(context.WithValue(w.Ctx, txRequestKey{}, &r), r.params())
 	w.checkErr(err)
 	out := TxOutcome{Kind: classify(err), Err: err, Log: log, Hit: hit}
 	if err != nil {
